@@ -111,6 +111,16 @@ func frameFor(kind string, i int) []byte {
 		}
 		return knxnet.AllocAndPack(&knxnet.TunnelRes{Channel: 1})
 	}
+	// malformed: a valid header with an undecodable body, or a header that is itself broken (too short, wrong header
+	// size, wrong protocol version) - none of them may disturb the receiver
+	switch i % 4 {
+	case 1:
+		return []byte{6, 0x10, 0x02}
+	case 2:
+		return []byte{7, 0x10, 0x02, 0x04, 0, 10, 1, 2, 3, 4}
+	case 3:
+		return []byte{6, 0x20, 0x02, 0x04, 0, 8, 1, 2}
+	}
 	return []byte{6, 0x10, 0x02, 0x04, 0, 9, 200, 1, 1}
 }
 
